@@ -139,25 +139,41 @@ func checkC15(c *Ctx, r *Report) {
 		// inside the dfs closure, the only value appended is cur.endpoint[method]
 		viol := "collectEndpointsByMethod does not select endpoint[method]"
 		var sites []string
-		for _, an := range fi.SSA.AnonFuncs {
-			allInstrs(an, false, func(_ *ssa.Function, _ *ssa.BasicBlock, _ int, ins ssa.Instruction) {
-				lk, ok := ins.(*ssa.Lookup)
-				if !ok {
-					return
+		// wherever the walk is written (closure, new function): the endpoint map is indexed with
+		// the requested verb itself - the function's string parameter, directly or captured
+		isVerbParam := func(ka *sliceAtoms) bool {
+			if len(ka.Consts) != 0 {
+				return false
+			}
+			n := 0
+			for p := range ka.Params {
+				if namedOf(p.Parent()) == namedOf(fi.SSA) && paramTyped(p, "string") {
+					n++
+				} else {
+					return false
 				}
-				ma, ka := sliceOf(lk.X), sliceOf(lk.Index)
-				if ma.hasFieldNamed("endpoint") {
-					sites = append(sites, w.pos(lk.Pos()))
-					if len(ka.FreeVars) == 1 && len(ka.Consts) == 0 {
-						for fv := range ka.FreeVars {
-							if fv.Name() == "method" {
-								viol = ""
-							}
-						}
-					}
+			}
+			for fv := range ka.FreeVars {
+				if b, ok := fv.Type().(*types.Pointer); ok && b.Elem().String() == "string" || fv.Type().String() == "string" {
+					n++
+				} else {
+					return false
 				}
-			})
+			}
+			return n == 1
 		}
+		allInstrs(fi.SSA, true, func(_ *ssa.Function, _ *ssa.BasicBlock, _ int, ins ssa.Instruction) {
+			lk, ok := ins.(*ssa.Lookup)
+			if !ok {
+				return
+			}
+			if ma := sliceOf(lk.X); ma.hasFieldNamed("endpoint") {
+				sites = append(sites, w.pos(lk.Pos()))
+				if isVerbParam(sliceOf(lk.Index)) {
+					viol = ""
+				}
+			}
+		})
 		r.add("C15.a", "fieldflow", cem+":endpoint[method]", "the endpoints collected are those registered under the requested verb", []string{cem}, sites, viol)
 	}
 	if fi := need(c, r, "C15.a", fc); fi != nil {
@@ -364,27 +380,45 @@ func checkC15(c *Ctx, r *Report) {
 		// the subtree walk visits every literal child and the parameter child
 		viol := ""
 		var sites []string
-		var lit *ast.FuncLit
-		var litObj types.Object // the variable the walk closure is bound to (it calls itself through it)
+		// the walk: a closure bound to a variable through which it calls itself, or a new
+		// function of the region that calls itself
+		var walkBody ast.Node
+		var litObj types.Object
+		walkKey := ""
 		w.inspectRegion(fi, func(n ast.Node) bool {
-			if as, ok := n.(*ast.AssignStmt); ok && lit == nil && len(as.Lhs) == 1 && len(as.Rhs) == 1 {
+			if as, ok := n.(*ast.AssignStmt); ok && walkBody == nil && len(as.Lhs) == 1 && len(as.Rhs) == 1 {
 				if fl, ok := as.Rhs[0].(*ast.FuncLit); ok {
 					if id, ok := as.Lhs[0].(*ast.Ident); ok {
-						lit, litObj = fl, fi.Pkg.TypesInfo.ObjectOf(id)
+						walkBody, litObj = fl.Body, fi.Pkg.TypesInfo.ObjectOf(id)
 					}
 				}
 			}
 			return true
 		})
-		isWalk := func(e ast.Expr) bool {
-			id, ok := e.(*ast.Ident)
-			return ok && litObj != nil && fi.Pkg.TypesInfo.ObjectOf(id) == litObj
+		if walkBody == nil {
+			for _, rf := range w.astRegion(fi)[1:] {
+				rf := rf
+				if rf.Pkg == fi.Pkg && rf.Decl.Body != nil && containsNode(rf.Decl.Body, w.callPred(rf, rf.Key)) {
+					walkBody, walkKey = rf.Decl.Body, rf.Key
+				}
+			}
 		}
-		if lit == nil {
-			viol = "dfs closure not found"
+		isWalk := func(e ast.Expr) bool {
+			if id, ok := e.(*ast.Ident); ok && litObj != nil && fi.Pkg.TypesInfo.ObjectOf(id) == litObj {
+				return true
+			}
+			if walkKey != "" {
+				if f, ok := fi.Pkg.TypesInfo.Uses[identOf(e)].(*types.Func); ok {
+					return shortFuncName(f) == walkKey
+				}
+			}
+			return false
+		}
+		if walkBody == nil {
+			viol = "the subtree walk (a function or closure that calls itself) was not found"
 		} else {
 			inRange, onParam := false, false
-			ast.Inspect(lit.Body, func(n ast.Node) bool {
+			ast.Inspect(walkBody, func(n ast.Node) bool {
 				switch x := n.(type) {
 				case *ast.RangeStmt:
 					if se, ok := x.X.(*ast.SelectorExpr); ok && se.Sel.Name == "literalChildren" {
@@ -401,10 +435,12 @@ func checkC15(c *Ctx, r *Report) {
 						}
 					}
 				case *ast.CallExpr:
-					if isWalk(x.Fun) && len(x.Args) == 1 {
-						if se, ok := x.Args[0].(*ast.SelectorExpr); ok && se.Sel.Name == "paramChild" {
-							onParam = true
-							sites = append(sites, w.pos(x.Pos()))
+					if isWalk(x.Fun) {
+						for _, a := range x.Args {
+							if se, ok := a.(*ast.SelectorExpr); ok && se.Sel.Name == "paramChild" {
+								onParam = true
+								sites = append(sites, w.pos(x.Pos()))
+							}
 						}
 					}
 				}
